@@ -32,6 +32,9 @@ VariantKinds == <<
   [vkind |-> "newtype", tys |-> <<"Inner">>, fields |-> << >>],
   [vkind |-> "newtype", tys |-> <<"Option<String>">>, fields |-> << >>],
   [vkind |-> "tuple", tys |-> <<"i64", "String">>, fields |-> << >>],
+  [vkind |-> "tuple", tys |-> <<"i64", "String", "bool">>, fields |-> << >>],
+  [vkind |-> "newtype", tys |-> <<"Vec<i64>">>, fields |-> << >>],
+  [vkind |-> "newtype", tys |-> <<"String">>, fields |-> << >>],
   [vkind |-> "struct", tys |-> << >>, fields |-> << [name |-> "x_val", ty |-> "i64", attrs |-> {}],
                                                        [name |-> "y_val", ty |-> "Option<String>", attrs |-> {}] >>] >>
 VarName(i) == CASE i = 1 -> "Alpha" [] i = 2 -> "BetaGamma" [] i = 3 -> "Delta"
@@ -59,8 +62,10 @@ AddVariant ==
     /\ d.kind = "enum" /\ Len(d.variants) < MaxVariants /\ UNCHANGED nattr
     /\ \E i \in DOMAIN VariantKinds :
          /\ VariantAllowed(d.tagging, VariantKinds[i])
-         /\ \A j \in DOMAIN d.variants : d.variants[j].idx <= i
-         /\ (d.tagging = "untagged" => \A j \in DOMAIN d.variants : d.variants[j].idx < i)
+         (* tagged enums: canonical order (the order of variants is immaterial); untagged enums:
+            every order of distinct variant kinds (serde tries the variants in order) *)
+         /\ (d.tagging # "untagged" => \A j \in DOMAIN d.variants : d.variants[j].idx <= i)
+         /\ (d.tagging = "untagged" => \A j \in DOMAIN d.variants : d.variants[j].idx # i)
          /\ d' = [d EXCEPT !.variants = Append(@, VariantKinds[i] @@ [name |-> VarName(Len(d.variants) + 1), idx |-> i])]
 
 AddContainerAttr ==
